@@ -70,6 +70,7 @@ struct World {
     std::string login_name = "root";
     std::vector<std::string> env;
     bool environ_null = false;
+    bool at_secure = false;                 // the process image was started in secure-execution mode (set-uid/set-gid exec): secure_getenv() sees nothing
     std::string cwd = "/";
     int cwd_errno = 0;
     std::string hostname = "simhost";
